@@ -215,7 +215,7 @@ func TestCheck(t *testing.T) {
 		floors = append(floors, "scenarios_sweep", "scenarios_hold", "scenarios_random", "mock_info_lines_crc_checked", "distinct_observed_event_order_signatures")
 	}
 	if r.Stage == "real" || r.Stage == "race" {
-		floors = append(floors, "real_sessions", "real_info_lines")
+		floors = append(floors, "real_sessions", "real_info_lines", "real_sessions_with_slow_consumer")
 	}
 	r.Finish(floors...)
 }
